@@ -241,14 +241,16 @@ Print Assumptions C14_power_law_density_and_quantile.
 
 (* ---- non-vacuity ---- *)
 (* A window built by the model for rectangular cells (ew 10, ns 30, maximum
-   distance 25: 3 rows x 7 columns) with density 1 / (1 + d^2) satisfies the
-   hypotheses, and 16 dispersers from source cell (5, 5) are allotted
-   4, 2, 2 to the centre and its east/west neighbours (10 m) and 1, 1 to the
-   north/south neighbours (30 m). *)
+   distance 25: 3 rows x 7 columns) with density 1 / (1 + (d/10)^2) satisfies
+   the hypotheses; 16 dispersers from source cell (5, 5) go 4 to the centre,
+   2 + 2 to the east/west neighbours (10 m), 1 + 1 to the north/south
+   neighbours (30 m) and 1 to the cell three columns away (30 m), which has
+   the same weight as the north/south neighbours. *)
 Example C14_nonvacuous :
-  let w := make_window (fun d2 => 1 / (1 + d2)) 25 10 30 in
+  let w := make_window (fun d2 => 1 / (1 + d2 / 100)) 25 10 30 in
   let out := fst (qrun w (repeat (5, 5, 16)%Z 16) (qinit w)) in
   w_rows w = 3%Z /\ w_cols w = 7%Z /\ qsum (w_prob w) == 1 /\
-  map (fun c => count_cell c out) [(5, 5); (5, 4); (5, 6); (4, 5); (6, 5)]%Z = [4; 2; 2; 1; 1]%nat.
+  nth (lin 7 0 3) (w_prob w) 0 == nth (lin 7 1 0) (w_prob w) 0 /\
+  map (fun c => count_cell c out) [(5, 5); (5, 4); (5, 6); (4, 5); (6, 5); (5, 2)]%Z = [4; 2; 2; 1; 1; 1]%nat.
 Proof. vm_compute. repeat split. Qed.
 Print Assumptions C14_nonvacuous.
